@@ -52,6 +52,170 @@ NOT_PROVED = ('Liveness (that the timer thread eventually runs) is an assumption
 HEADER = 'From CF Require Import Common.Bytes C10.Model.\nOpen Scope Z_scope.\n'
 
 
+# ------------------------------------------------------------------ translator: needs_resending of the link drivers
+def _assignments(tree, attr):
+    """All assignments to an attribute called `attr`: (class name, function name, target source, value node, stack)."""
+    import ast
+    out = []
+
+    def walk(node, cls, fn, stack):
+        for ch in ast.iter_child_nodes(node):
+            c2, f2 = cls, fn
+            if isinstance(ch, ast.ClassDef):
+                c2, f2 = ch.name, None
+            elif isinstance(ch, (ast.FunctionDef, ast.AsyncFunctionDef)):
+                f2 = ch.name
+            if isinstance(ch, (ast.Assign, ast.AugAssign, ast.AnnAssign)):
+                tgts = ch.targets if isinstance(ch, ast.Assign) else [ch.target]
+                for t in tgts:
+                    for sub in ast.walk(t):
+                        if isinstance(sub, ast.Attribute) and sub.attr == attr:
+                            if not isinstance(ch, ast.Assign) or len(tgts) != 1 or sub is not t:
+                                raise ValueError('unrecognised assignment to %s at line %d' % (attr, ch.lineno))
+                            out.append((c2, f2, ast.unparse(t), ch.value, list(stack)))
+            if isinstance(ch, ast.Call) and isinstance(ch.func, ast.Name) and ch.func.id == 'setattr':
+                raise ValueError('setattr at line %d: cannot follow attribute writes' % ch.lineno)
+            walk(ch, c2, f2, stack + [ch])
+    walk(tree, None, None, [])
+    return out
+
+
+def _const_bool(node, what):
+    import ast
+    if isinstance(node, ast.Constant) and isinstance(node.value, bool):
+        return node.value
+    raise ValueError('%s: expected a literal True/False, found %s' % (what, ast.dump(node)))
+
+
+def extract_driver_flags(repo):
+    """Fail-closed extraction of how the anchored drivers set `needs_resending`."""
+    import ast
+    src = {n: open(os.path.join(repo, 'cflib', 'crtp', n + '.py')).read() for n in ('crtpdriver', 'usbdriver', 'radiodriver')}
+    trees = {n: ast.parse(v) for n, v in src.items()}
+    # base class: exactly one assignment, in CRTPDriver.__init__, to self.needs_resending
+    a = _assignments(trees['crtpdriver'], 'needs_resending')
+    if [(x[0], x[1], x[2]) for x in a] != [('CRTPDriver', '__init__', 'self.needs_resending')]:
+        raise ValueError('crtpdriver.py: assignments to needs_resending: %r' % [(x[0], x[1], x[2]) for x in a])
+    default = _const_bool(a[0][3], 'CRTPDriver.__init__')
+    a = _assignments(trees['usbdriver'], 'needs_resending')
+    if [(x[0], x[1], x[2]) for x in a] != [('UsbDriver', '__init__', 'self.needs_resending')]:
+        raise ValueError('usbdriver.py: assignments to needs_resending: %r' % [(x[0], x[1], x[2]) for x in a])
+    usb = _const_bool(a[0][3], 'UsbDriver.__init__')
+    a = _assignments(trees['radiodriver'], 'needs_resending')
+    shape = [(x[0], x[1], x[2]) for x in a]
+    if shape != [('RadioDriver', '__init__', 'self.needs_resending'), ('_RadioDriverThread', 'run', 'self._link.needs_resending')]:
+        raise ValueError('radiodriver.py: assignments to needs_resending: %r' % shape)
+    radio0 = _const_bool(a[0][3], 'RadioDriver.__init__')
+    v = a[1][3]
+    if a[1][4] and any(isinstance(n, (ast.If, ast.For, ast.While, ast.Try, ast.With)) for n in a[1][4][2:]):
+        raise ValueError('radiodriver.py: the assignment in _RadioDriverThread.run is conditional')
+    if isinstance(v, ast.UnaryOp) and isinstance(v.op, ast.Not) and ast.unparse(v.operand) == 'self._has_safelink':
+        after = 'negb safelink'
+    elif isinstance(v, ast.Attribute) and ast.unparse(v) == 'self._has_safelink':
+        after = 'safelink'
+    elif isinstance(v, ast.Constant) and isinstance(v.value, bool):
+        after = 'true' if v.value else 'false'
+    else:
+        raise ValueError('radiodriver.py: unrecognised value %s' % ast.unparse(v))
+    # _has_safelink: False in __init__, True only under the test of the safelink reply (0xff, 0x05, 0x01)
+    h = _assignments(trees['radiodriver'], '_has_safelink')
+    hs = [(x[0], x[1], x[2]) for x in h]
+    if hs != [('_RadioDriverThread', '__init__', 'self._has_safelink'), ('_RadioDriverThread', 'run', 'self._has_safelink')]:
+        raise ValueError('radiodriver.py: assignments to _has_safelink: %r' % hs)
+    if _const_bool(h[0][3], '_has_safelink init') is not False or _const_bool(h[1][3], '_has_safelink run') is not True:
+        raise ValueError('radiodriver.py: _has_safelink must start False and be set True on confirmation')
+    guards = [n for n in h[1][4] if isinstance(n, ast.If)]
+    if not guards or '(255, 5, 1)' not in ast.unparse(guards[-1].test).replace('0xff', '255').replace('0x05', '5').replace('0x01', '1'):
+        raise ValueError('radiodriver.py: _has_safelink = True is not guarded by the safelink confirmation test')
+    # the link object the thread writes to must be the driver itself
+    if '_RadioDriverThread(' not in src['radiodriver']:
+        raise ValueError('radiodriver.py: thread construction not found')
+    return {'default': default, 'usb': usb, 'radio_initial': radio0, 'radio_after': after}
+
+
+def generate(ctx):
+    fl = extract_driver_flags(ctx.repo)
+    b = coqrun.coq_bool
+    text = ('(* GENERATED by harness/props/c10.py from cflib/crtp/{crtpdriver,usbdriver,radiodriver}.py - do not edit *)\n'
+            'Definition drv_default_nr : bool := %s.        (* CRTPDriver.__init__ *)\n'
+            'Definition drv_usb_nr : bool := %s.            (* UsbDriver.__init__ *)\n'
+            'Definition drv_radio_initial_nr : bool := %s.  (* RadioDriver.__init__ *)\n'
+            '(* _RadioDriverThread.run, once the safelink negotiation (up to 10 tries) is over *)\n'
+            'Definition drv_radio_nr_after (safelink : bool) : bool := %s.\n'
+            % (b(fl['default']), b(fl['usb']), b(fl['radio_initial']), fl['radio_after']))
+    path = os.path.join(coqrun.COQ_DIR, 'C10', 'Gen_Drivers.v')
+    old = open(path).read() if os.path.exists(path) else None
+    if old != text:
+        with open(path, 'w') as f:
+            f.write(text)
+    return {'file': 'coq/C10/Gen_Drivers.v', 'flags': fl,
+            'sources': ['cflib/crtp/crtpdriver.py', 'cflib/crtp/usbdriver.py', 'cflib/crtp/radiodriver.py']}
+
+
+# ------------------------------------------------------------------ drivers: needs_resending on the real classes
+DRIVER_TRUTH = {            # which links guarantee delivery (protocol knowledge, independent of the model)
+    'base': True,           # CRTPDriver default: assume nothing
+    'usb': False,           # USB is lossless
+    'radio_initial': True,  # before the safelink negotiation
+    'radio_safelink': False,        # safelink confirmed: the link layer resends and de-duplicates (C01)
+    'radio_no_safelink': True,      # negotiation failed: plain radio, packets can be lost
+}
+
+
+def driver_flag(which):
+    """needs_resending as the real driver classes set it (no hardware: constructors only; the radio thread's run() is
+    executed synchronously against a scripted radio that answers the safelink request or not, then stops it)."""
+    from cflib.crtp.crtpdriver import CRTPDriver
+    if which == 'base':
+        return CRTPDriver().needs_resending
+    if which == 'usb':
+        from cflib.crtp.usbdriver import UsbDriver
+        return UsbDriver().needs_resending
+    from cflib.crtp import radiodriver
+    link = radiodriver.RadioDriver()
+    if which == 'radio_initial':
+        return link.needs_resending
+    confirm = which == 'radio_safelink'
+
+    class Resp:
+        ack = True
+        data = (0xff, 0x05, 0x01)
+
+    class Radio:
+        def __init__(self):
+            self.n = 0
+
+        def send_packet(self, data):
+            self.n += 1
+            if tuple(data) == (0xff, 0x05, 0x01) and self.n <= 10 and not th._sp:
+                if confirm:
+                    th_seen.append(self.n)
+                    return Resp()
+                return None
+            th._sp = True
+            return None
+    th_seen = []
+    import queue
+    th = radiodriver._RadioDriverThread(Radio(), queue.Queue(), queue.Queue(), None, None, link, None)
+    th.run()
+    return link.needs_resending
+
+
+def check_drivers():
+    fails = []
+    for which, want in sorted(DRIVER_TRUTH.items()):
+        try:
+            got = driver_flag(which)
+        except Exception as e:      # fail-closed
+            got = 'raised %r' % (e,)
+        if got is not want:
+            fails.append({'class': 'driver_needs_resending_flag_%s' % which, 'case': {'driver': which},
+                          'expected': want, 'observed': got,
+                          'detail': 'link driver state %s: needs_resending must be %s (%s), is %s'
+                                    % (which, want, 'requests are retried' if want else 'delivery is guaranteed, no retry', got)})
+    return fails
+
+
 # ------------------------------------------------------------------ events -> Coq
 def _ev(e):
     k = e[0]
@@ -403,7 +567,7 @@ def enum_cases(depth):
 
 
 def oracle(ctx, deep=False):
-    fails, seen = [], set()
+    fails, seen = check_drivers(), set()
     cases = corpus_cases() + list(enum_cases(ctx.scale(3, 5)))
     for _ in range(ctx.scale(4000, 80000) * (3 if deep else 1)):
         cases.append(gen_case(ctx.rng, ideal=ctx.rng.random() < 0.6))
@@ -420,4 +584,7 @@ def oracle(ctx, deep=False):
 
 
 def replay(payload, ctx):
+    if 'driver' in payload['case']:
+        fs = [f for f in check_drivers() if f['case'] == payload['case']]
+        return fs[0] if fs else None
     return check_case(payload['case'])
